@@ -18,6 +18,7 @@ def c1(ctx):
 def c2(ctx):
     convert.purity(ctx)
     convert.convert_sequence(ctx)
+    convert.wrappers(ctx, 'sm_to_ssc')
     fwd.fwd_options(ctx, ["simfile_template", "chart_template"], floor=2, scope=["simfile.convert:sm_to_ssc", "simfile.convert:_convert"])
 
 
